@@ -193,6 +193,7 @@ fn effect_of(st: &Statement) -> String {
             None => "ENone".into(),
         },
         Statement::Meta(MetaCommand::RelDrop(n)) if n == "t" => "EDropRel".into(),
+        Statement::Meta(MetaCommand::RelDescribe(n)) if n == "t" => "EDescribe".into(),
         Statement::Meta(MetaCommand::RuleDrop(n)) => match num(n, 'r') {
             Some(m) => format!("(EDelRule {})", coq_n(m)),
             None => "ENone".into(),
@@ -516,7 +517,7 @@ impl Gen {
     pub fn read_stmt(&mut self, rng: &mut Rng) -> String {
         let v = [
             "?t(X)", "?users(A, B, C)", "?r100(X)", "p(X) <- t(X)", "t(5)", "type Age: int", ".kg", ".kg list", ".rel list", ".rule list",
-            ".rel describe t", ".rule show r100", ".index list", ".status", ".help", ".load data.iql", ".clear prefix zz", ".index drop nope",
+            ".rel describe t", ".rel t", ".rel t", ".rule r100", ".rule show r100", ".index list", ".status", ".help", ".load data.iql", ".clear prefix zz", ".index drop nope",
             "-t(X), +t(X) <- t(X), X > 1000000", ".rule clear zz9", ".index stats nope", ".session list", ".rule def r100", ".rule drop prefix zz",
         ];
         rng.pick(&v).to_string()
@@ -679,6 +680,14 @@ pub fn corpus() -> Vec<(usize, bool, usize, u64, &'static str)> {
         (3, true, 1, 1, "// acl-on-internal\n.kg use _internal"),
         (2, true, 1, 2, "// acl-on-internal\n+t[(218,)]\n.kg drop _internal"),
         (2, true, 1, 2, "// acl-on-internal\n.kg acl grant _internal eve owner"),
+        // a trailing query (also `.rule show` / `.rel describe`) suppresses the post-processing of the request
+        (2, true, 1, 3 + 3 * 16, ".kg drop k3\n.rule show r100"),
+        (2, true, 1, 3 + 3 * 16, ".kg drop k3\n.rel t"),
+        (2, true, 1, 3 + 3 * 16, ".kg drop k3\n.rel describe t"),
+        (2, true, 1, 3 + 3 * 16, ".kg drop k3\n-t(100)\n-t(101)\n-t(102)\n.rel t"),
+        (2, true, 1, 3 + 3 * 4, ".kg use k2\n?t(X)"),
+        (2, true, 1, 3, ".kg create k4\n.rel t"),
+        (2, true, 1, 3, ".kg create k4\n+t[(219,)]\n.rel t"),
         (3, true, 1, 1, ".rel drop t"),
         (3, true, 1, 2, ".rel drop t\n+s217(a: int)\n.rule drop r100"),
     ]
